@@ -17,8 +17,29 @@ VERS = ["1", "2", "3"]
 FLAVS = ["Linux", "generic"]
 TAGS = ["current", "stable", "beta"]
 NSTACKS = 2
+STACK_NAMES = ("stack", "stack2")      # stack 0 is a character prefix of stack 1
+# table files kept outside the installation directories (what `declare -m <path>` can name): [stack index, path], content id.
+# `ups_db_tables` is a sibling of `ups_db` whose name begins like it.
+TFILES = [[[0, "ups_db_tables/t1.table"], 1], [[1, "ups_db_tables/t2.table"], 2], [[NSTACKS, "tables/t3.table"], 3]]
+SYS = "S"                               # pseudo user: the cache directory inside ups_db/ of each stack
+STREAMS = (11, 12)                      # content ids of tables given as a stream (`declare -M`)
+OUTSIDE_NAME = "stack2x"                # directories outside every stack: both stack names are character prefixes of it
 USERS = ["A", "B"]
 CACHE_RE = re.compile(r"\.pickleDB\d+_\d+_\d+$")
+
+
+def table_text(cid):
+    """bytes of the table file with content id `cid` (a comment; sizes differ so that filecmp never ties)"""
+    return "# content %d %s\n" % (cid, "x" * cid)
+
+
+def content_id(txt):
+    m = re.search(r"content (\d+)", txt)
+    return int(m.group(1)) if m else txt.strip()
+
+
+def interned_rel(f, n, v):
+    return "ups_db/%s/%s/%s/ups/%s.table" % (f, n, v, n)
 
 
 def all_dirs():
@@ -28,13 +49,22 @@ def all_dirs():
 class World:
     def __init__(self, missing=(), users=USERS):
         self.root = common.scratch("db")
-        self.stacks, self.uds = common.mkstacks(self.root, NSTACKS, extra_tags=("beta",), users=tuple(users))
+        # directory names that are character prefixes of one another (DESIGN 4.1): stack, stack2, stack2x (outside)
+        self.stacks, self.uds = common.mkstacks(self.root, NSTACKS, extra_tags=("beta",), users=tuple(users),
+                                                names=STACK_NAMES)
         self.missing = [list(m) for m in missing]
         for si, rel in all_dirs():
             if [si, rel] in self.missing:
                 continue
             f, n, v = rel.split("/")
             common.mkprod(self.stacks[si], n, v, "", flavor=f)
+        for d, cid in TFILES:
+            p = self.path_of(d)
+            os.makedirs(os.path.dirname(p), exist_ok=True)
+            with open(p, "w") as f:
+                f.write(table_text(cid))
+        self.tmp = os.path.join(self.root, "tmp")           # tempfile.tempdir of the children (they leave with os._exit)
+        os.makedirs(self.tmp)
         self.src = os.path.join(self.root, "src")          # sources of external files (-L), outside the stacks
         os.makedirs(self.src)
         for cid in (1, 2, 3):
@@ -53,7 +83,7 @@ class World:
         if d is None:
             return None
         si, rel = d
-        base = self.stacks[si] if si < NSTACKS else os.path.join(self.root, "outside")
+        base = self.stacks[si] if si < NSTACKS else os.path.join(self.root, OUTSIDE_NAME)
         return os.path.join(base, rel)
 
     def canon_path(self, s):
@@ -65,16 +95,22 @@ class World:
                 return [si, ""]
             if s.startswith(st + "/"):
                 return [si, s[len(st) + 1:]]
+        out = os.path.join(self.root, OUTSIDE_NAME)
+        if s.startswith(out + "/"):
+            return [NSTACKS, s[len(out) + 1:]]
         if s.startswith(self.root + "/"):
-            return [NSTACKS, s[len(self.root) + 1:]]
+            return [NSTACKS + 1, s[len(self.root) + 1:]]
         return s
 
-    def canon_table(self, name, d, t):
-        """resolved tablefile -> 'default' (dir/ups/name.table) | 'none' | canonical path"""
+    def canon_table(self, name, d, t, key=None):
+        """resolved tablefile -> 'default' (dir/ups/name.table) | 'none' | 'interned' (the copy in the extra
+        directory of the declaration key = (stack index, flavor, version)) | canonical path"""
         if t is None or t == "none":
             return "none"
         if d is not None and t == os.path.join(d, "ups", name + ".table"):
             return "default"
+        if key is not None and t == os.path.join(self.stacks[key[0]], interned_rel(key[1], name, key[2])):
+            return "interned"
         return self.canon_path(t)
 
     # ---- time -------------------------------------------------------------------------------
@@ -114,6 +150,9 @@ class World:
 
     # ---- cache files ------------------------------------------------------------------------
     def cache_dir(self, user, si):
+        """the cache directory of a user for a stack; user SYS: the one inside ups_db/ (eups admin buildCache -A)"""
+        if user == SYS:
+            return os.path.join(self.stacks[si], "ups_db")
         return os.path.join(self.uds[user], "_caches_", self.stacks[si][1:])
 
     def cache_file(self, user, si, flavor):
@@ -122,7 +161,7 @@ class World:
     def cache_state(self):
         """{(user, si, flavor): mtime} of the persisted caches of the two stacks"""
         out = {}
-        for u in self.uds:
+        for u in list(self.uds) + [SYS]:
             for si in range(NSTACKS):
                 d = self.cache_dir(u, si)
                 if os.path.isdir(d):
@@ -172,8 +211,7 @@ class World:
                         for f in fn:
                             rel = os.path.relpath(os.path.join(dp, f), pd).split(os.sep)
                             with open(os.path.join(dp, f)) as fh:
-                                txt = fh.read().strip()
-                            cid = int(txt.split()[1]) if txt.startswith("content ") else txt
+                                cid = content_id(fh.read())
                             if len(rel) >= 3:
                                 extras.append([si, n, rel[0], rel[1], "/".join(rel[2:]), cid])
                             else:
@@ -318,6 +356,8 @@ def _child_command(world, cmd, probe=None):
         _quiet_fds()
     os.environ["EUPS_PATH"] = ":".join(world.stacks)
     os.environ["EUPS_USERDATA"] = world.uds[cmd.get("user", "A")]
+    import tempfile
+    tempfile.tempdir = world.tmp          # scratch files of the command (table given as a stream) land outside the stacks
     events = []
     _install_audit(events)
     state0 = {}
@@ -337,8 +377,14 @@ def _child_command(world, cmd, probe=None):
     try:
         if op == "declare":
             kw = {}
-            if cmd.get("table") == "none":
+            t = cmd.get("table")
+            if t == "none":
                 kw["tablefile"] = "none"
+            elif t and t[0] == "path":                      # declare -m <path>
+                kw["tablefile"] = world.path_of(t[1])
+            elif t and t[0] == "stream":                    # declare -M: the table comes as a stream
+                import io
+                kw["tablefile"] = io.StringIO(table_text(t[1]))
             if cmd.get("ext"):
                 kw["externalFileList"] = [(os.path.join(world.src, "c%d" % cid), path) for path, cid in cmd["ext"]]
             ret = e.declare(cmd["name"], cmd["version"], world.path_of(cmd.get("dir")), st(cmd.get("stack")),
@@ -379,7 +425,7 @@ def view_of(world, e):
         for fl, names in e.versions[s].lookup.items():
             for n, fam in names.items():
                 for v, data in fam.versions.items():
-                    decls.append([si, n, v, fl, world.canon_path(data[0]), world.canon_table(n, data[0], data[1])])
+                    decls.append([si, n, v, fl, world.canon_path(data[0]), world.canon_table(n, data[0], data[1], (si, fl, v))])
                 for t, v in fam.tags.items():
                     tags.append([si, t, n, fl, v])
     return {"decls": sorted(decls, key=common.jdump), "tags": sorted(tags)}
@@ -402,6 +448,28 @@ def _child_clearcache(world, user):
     return {"events": [x for x in events if x]}
 
 
+def _child_adminbuild(world, user, flavor):
+    """`eups admin buildCache -A` of one user: the CLI calls eups.app.clearCache(inUserDir=False), then
+    Eups(readCache=True, asAdmin=True).  On stacks without ups_db/global.tags the constructor ends with RuntimeError
+    ("Group not supported") in _loadServerTags, after the caches have been read or built: that ending is reported,
+    not hidden."""
+    _quiet_fds()
+    os.environ["EUPS_PATH"] = ":".join(world.stacks)
+    os.environ["EUPS_USERDATA"] = world.uds[user]
+    events = []
+    _install_audit(events)
+    import eups.app
+    import importlib
+    E = importlib.import_module("eups.Eups")
+    eups.app.clearCache(inUserDir=False)
+    exc = None
+    try:
+        E.Eups(readCache=True, asAdmin=True, flavor=flavor, quiet=1)
+    except RuntimeError as ex:
+        exc = str(ex)[:200]
+    return {"events": [x for x in events if x], "exc": exc}
+
+
 def _child_read(world):
     """Fresh reader through eups.db.Database only (no Eups instance, hence no cache traffic)."""
     _quiet_fds()
@@ -412,7 +480,7 @@ def _child_read(world):
         for n in sorted(db.findProductNames()):
             for p in db.findProducts(n):
                 decls.append([si, p.name, p.version, p.flavor, world.canon_path(p.dir),
-                              world.canon_table(p.name, p.dir, p.tablefile)])
+                              world.canon_table(p.name, p.dir, p.tablefile, (si, p.flavor, p.version))])
             for t, v, f in db.getTagAssignments(n):
                 tags.append([si, t, n, f, v])
     return {"decls": sorted(decls, key=common.jdump), "tags": sorted(tags)}
@@ -441,7 +509,21 @@ def listing_from_files(world, parsed):
             elif d is not None and (ud or "none") == "ups" and tf == n + ".table":
                 t = "default"
             else:
-                t = [ud, tf]
+                # UPS_DIR: relative to the directory, `$UPS_DB` = the database directory of the stack; TABLE_FILE: relative
+                # to UPS_DIR, else (records that store it relative to the stack) to the stack
+                dabs = world.path_of(d) if isinstance(d, list) else d
+                u = ud if ud and ud != "none" else None
+                if u and u.startswith("$UPS_DB"):
+                    u = os.path.join(world.stacks[si], "ups_db") + u[len("$UPS_DB"):]
+                elif u and not os.path.isabs(u) and dabs:
+                    u = os.path.join(dabs, u)
+                if os.path.isabs(tf):
+                    tabs = tf
+                else:
+                    tabs = os.path.join(u or dabs or "", tf)
+                    if not os.path.exists(tabs) and os.path.exists(os.path.join(world.stacks[si], tf)):
+                        tabs = os.path.join(world.stacks[si], tf)
+                t = world.canon_table(n, dabs, tabs, (si, f, v))
             decls.append([si, n, v, f, d, t])
     for si, n, t, groups in parsed["cfiles"]:
         for f, v in groups:
@@ -458,7 +540,7 @@ def rel_of(f, n, v):
 
 
 def gen_history(rng, ncmds, users=("A",), crash=0.0, rmcache=0.0, query=0.0, noaction=0.08, direct_tag=0.12,
-                remove=0.03, ext=0.08):
+                remove=0.03, ext=0.08, tables=0.06, envrm=0.015):
     """A history weighted toward the order-sensitive patterns: few product names, tag - undeclare -
     redeclare, two flavors in one version file, the same product in both stacks."""
     names = rng.sample(NAMES, rng.choice([1, 1, 2, 3]))
@@ -475,11 +557,17 @@ def gen_history(rng, ncmds, users=("A",), crash=0.0, rmcache=0.0, query=0.0, noa
         user = rng.choice(users)
         r = rng.random()
         if r < rmcache:
-            if rng.random() < 0.25:
+            r3 = rng.random()
+            if r3 < 0.2:
                 cmds.append({"op": "clearcache", "user": rng.choice(users)})
+            elif r3 < 0.5:                                   # eups admin buildCache -A: the cache inside ups_db/
+                cmds.append({"op": "adminbuild", "user": rng.choice(users), "flavor": "generic" if rng.random() < 0.15 else "Linux"})
             else:
-                cmds.append({"op": "rmcache", "user": rng.choice(users), "stack": rng.randrange(NSTACKS),
+                cmds.append({"op": "rmcache", "user": rng.choice(list(users) + [SYS]), "stack": rng.randrange(NSTACKS),
                              "flavor": rng.choice(FLAVS)})
+            continue
+        if rng.random() < envrm:
+            cmds.append({"op": "envrmdir", "dir": rng.choice(all_dirs())})
             continue
         f = "generic" if rng.random() < pgen else "Linux"
         if r < rmcache + query:
@@ -509,12 +597,20 @@ def gen_history(rng, ncmds, users=("A",), crash=0.0, rmcache=0.0, query=0.0, noa
                     c["dir"] = [NSTACKS, "nowhere/%s/%s" % (n, v)]
             if kind in ("declare_tag", "tag_only") or (kind == "conflict" and rng.random() < 0.4):
                 c["tag"] = t
-            if rng.random() < 0.1:
+            r2 = rng.random()
+            if r2 < 0.1:
                 c["table"] = "none"
+            elif r2 < 0.1 + tables:                         # -m <path>: a table file kept elsewhere, or the interned one
+                if rng.random() < 0.75:
+                    c["table"] = ["path", rng.choice(TFILES)[0]]
+                else:
+                    c["table"] = ["path", [si if stack is None else stack, interned_rel(f, n, rng.choice([v, v, rng.choice(VERS)]))]]
+            elif r2 < 0.1 + 2 * tables:                     # -M: the table as a stream
+                c["table"] = ["stream", rng.choice(STREAMS)]
             if rng.random() < 0.12:
                 c["force"] = True
             if rng.random() < ext:
-                c["ext"] = [[p, rng.choice([1, 2])] for p in rng.sample(["doc/a.txt", "b.cfg", "doc/c.txt"], rng.choice([1, 1, 2]))]
+                c["ext"] = [[p, rng.choice([1, 2])] for p in rng.sample(["doc/a.txt", "b.cfg", "doc/c.txt", "ups/d.cfg"], rng.choice([1, 1, 2]))]
             if (n, v, f) not in known:
                 known.append((n, v, f))
         elif kind in ("undeclare", "undeclare_nov", "untag", "untag_nov", "vat", "vat_nov"):
@@ -600,6 +696,18 @@ def run_history(case, hash_noaction=True, probe=None, world_hook=None):
                 if r[0] == "ok":
                     events = r[1]["events"]
                 rec["caches_left"] = sorted(k for k in w.cache_state() if k.startswith(cmd["user"] + "/"))
+            elif cmd["op"] == "envrmdir":                     # somebody deletes an installation directory by hand
+                p = w.path_of(cmd["dir"])
+                rec["out"] = "ok"
+                if os.path.isdir(p):
+                    common.rmtree(p)
+            elif cmd["op"] == "adminbuild":
+                r = common.in_child(_child_adminbuild, w, cmd["user"], cmd.get("flavor", "Linux"))
+                ok = r[0] == "ok" and (r[1]["exc"] is None or r[1]["exc"].startswith("Group not supported"))
+                rec["out"] = "ok" if ok else "Other:%s" % (r[1],)
+                if r[0] == "ok":
+                    events = r[1]["events"]
+                rec["sys_caches"] = sorted(k for k in w.cache_state() if k.startswith(SYS + "/"))
             else:
                 h0 = w.tree_hash() if (hash_noaction and cmd.get("noaction")) else None
                 c = dict(cmd)
@@ -649,7 +757,7 @@ def run_history(case, hash_noaction=True, probe=None, world_hook=None):
     return steps
 
 
-UID = {"A": 0, "B": 1}
+UID = {SYS: 0, "A": 1, "B": 2}          # 0 = Cache.sysUser: the cache directory inside ups_db/
 
 
 def model_request(case, pinned=False, m="c06"):
@@ -662,14 +770,19 @@ def model_request(case, pinned=False, m="c06"):
         if c["op"] == "clearcache":
             cmds.append({"op": "clearcache", "user": UID[c["user"]]})
             continue
+        if c["op"] == "adminbuild":
+            cmds.append({"op": "adminbuild", "user": UID[c["user"]], "self": c.get("flavor", "Linux")})
+            continue
+        if c["op"] == "envrmdir":
+            cmds.append({"op": "envrmdir", "dir": c["dir"]})
+            continue
         d = {"op": c["op"], "user": UID[c.get("user", "A")], "self": c.get("flavor", "Linux")}
-        for k in ("name", "version", "dir", "stack", "tag", "force", "noaction", "vat", "crash", "recursive", "setup", "ext"):
+        for k in ("name", "version", "dir", "stack", "tag", "force", "noaction", "vat", "crash", "recursive", "setup", "ext",
+                  "table"):
             if k in c:
                 d[k] = c[k]
-        if c.get("table") == "none":
-            d["tableNone"] = True
         cmds.append(d)
-    return {"m": m, "nst": NSTACKS, "dirs": dirs, "pinned": pinned, "cmds": cmds}
+    return {"m": m, "nst": NSTACKS, "dirs": dirs, "tfiles": TFILES, "pinned": pinned, "cmds": cmds}
 
 
 def canon_spec(js):
